@@ -827,4 +827,320 @@ theorem zipTail_getElem? (f : Bool → Bool → Bool) (a b : List Bool) (i : Nat
       | zero => simp
       | succ i => simpa using ih b i (by simpa using ha) (by simpa using hb)
 
+
+/-! mask backing -/
+theorem countTrue_eq (m : List Bool) : countTrue m = Spec.countTrue m := by
+  induction m with
+  | nil => rfl
+  | cons a m ih => cases a <;> simp [countTrue, Spec.countTrue, ih]
+
+theorem combineMasks_eq (f : Bool → Bool → Bool) (a b : List Bool) :
+    combineMasks f a b = zipTail f a b := by
+  induction a generalizing b with
+  | nil => cases b <;> simp [combineMasks]
+  | cons x a ih => cases b <;> simp [combineMasks, ih]
+
+theorem scatter_eq (m o : List Bool) : scatter m o = compose m o := by
+  induction m generalizing o with
+  | nil => cases o <;> simp [scatter]
+  | cons x m ih =>
+    cases x
+    · simp [scatter, compose, ih]
+    · cases o <;> simp [scatter, compose, ih]
+
+theorem compose_all_false (m o : List Bool) (h : Spec.countTrue o = 0) :
+    compose m o = List.replicate m.length false := by
+  induction m generalizing o with
+  | nil => simp
+  | cons x m ih =>
+    cases x
+    · simp [compose, ih o h, List.replicate_succ]
+    · cases o with
+      | nil => simp [compose, ih [] h, List.replicate_succ]
+      | cons y o =>
+        cases y
+        · simp [compose, List.replicate_succ]; exact ih o (by simpa [Spec.countTrue] using h)
+        · simp [Spec.countTrue] at h
+
+theorem countTrue_le_length (o : List Bool) : Spec.countTrue o ≤ o.length := by
+  induction o with
+  | nil => simp [Spec.countTrue]
+  | cons z o ih => cases z <;> simp [Spec.countTrue] <;> omega
+
+theorem compose_all_true (m o : List Bool) (hl : o.length = Spec.countTrue m)
+    (h : Spec.countTrue o = o.length) : compose m o = m := by
+  induction m generalizing o with
+  | nil => simp
+  | cons x m ih =>
+    cases x
+    · simp only [compose, List.cons.injEq, true_and]
+      exact ih o (by simpa [Spec.countTrue] using hl) h
+    · cases o with
+      | nil => simp [Spec.countTrue] at hl
+      | cons y o =>
+        cases y
+        · have := countTrue_le_length o
+          simp [Spec.countTrue] at h
+          omega
+        · simp only [compose, List.cons.injEq, true_and]
+          exact ih o (by simpa [Spec.countTrue] using hl) (by simpa [Spec.countTrue] using h)
+
+/-- `and_then_masks` (both fast paths and the scatter loop) is composition -/
+theorem andThenMasks_spec (m o out : List Bool) (h : andThenMasks m o = some out) :
+    out = compose m o ∧ o.length = Spec.countTrue m := by
+  unfold andThenMasks at h
+  simp only [countTrue_eq] at h
+  split at h
+  · simp at h
+  · rename_i hl
+    simp only [ne_eq, Decidable.not_not] at hl
+    split at h
+    · rename_i h0
+      simp at h; subst h
+      exact ⟨(compose_all_false m o h0).symm, hl⟩
+    · split at h
+      · rename_i h0 h1
+        simp at h; subst h
+        exact ⟨(compose_all_true m o hl (by omega)).symm, hl⟩
+      · simp at h; subst h
+        exact ⟨scatter_eq m o, hl⟩
+
+theorem splitOffMask_spec (m : List Bool) (k : Nat) :
+    (splitOffMask m k).1 = m.take k ∧ (splitOffMask m k).2 = m.drop k := by
+  unfold splitOffMask
+  split
+  · rename_i h; simp [List.take_of_length_le h, List.drop_of_length_le h]
+  · simp
+
+theorem limitMask_spec (m : List Bool) (k : Nat) : limitMask m k = keepFirst k m := by
+  unfold limitMask
+  induction m generalizing k with
+  | nil => cases k <;> simp [findNth, keepFirst]
+  | cons x m ih =>
+    cases k with
+    | zero => simp [findNth, keepFirst]
+    | succ k => cases x <;> simp [findNth, keepFirst, ih]
+
+theorem findNth_clear (m : List Bool) (k : Nat) (h : k < Spec.countTrue m) :
+    List.replicate (findNth m k) false ++ m.drop (findNth m k) = clearFirst k m := by
+  induction m generalizing k with
+  | nil => simp [Spec.countTrue] at h
+  | cons x m ih =>
+    cases k with
+    | zero => simp [findNth]
+    | succ k =>
+      cases x
+      · simp [findNth, clearFirst, List.replicate_succ]
+        exact ih (k + 1) (by simpa [Spec.countTrue] using h)
+      · simp [findNth, clearFirst, List.replicate_succ]
+        exact ih k (by simp [Spec.countTrue] at h; omega)
+
+/-- `offset_mask` drops the first `k` selected positions -/
+theorem offsetMask_positions (m : List Bool) (k : Nat) :
+    trueIdx 0 (offsetMask m k) = (trueIdx 0 m).drop k := by
+  unfold offsetMask
+  simp only [countTrue_eq]
+  split
+  · rename_i h
+    have := trueIdx_length 0 m
+    rw [List.drop_of_length_le (by omega)]; rfl
+  · rename_i h
+    rw [findNth_clear m k (by omega), trueIdx_clearFirst]
+
+theorem trimMask_spec (m : List Bool) : ∃ k, m = trimMask m ++ List.replicate k false := by
+  induction m with
+  | nil => exact ⟨0, rfl⟩
+  | cons x m ih =>
+    obtain ⟨k, hk⟩ := ih
+    unfold trimMask
+    split
+    · rename_i h0
+      rw [h0] at hk
+      cases x
+      · exact ⟨k + 1, by simp [hk, List.replicate_succ]⟩
+      · exact ⟨k, by simp [hk]⟩
+    · exact ⟨k, by simp; exact hk⟩
+
+theorem trimMask_positions (m : List Bool) : trueIdx 0 (trimMask m) = trueIdx 0 m := by
+  obtain ⟨k, hk⟩ := trimMask_spec m
+  conv => rhs; rw [hk]
+  rw [trueIdx_append, trueIdx_rep_false]; simp
+
+theorem takeSelected_spec (m : List Bool) (need : Nat) :
+    (takeSelected m need).1 ++ (takeSelected m need).2 = m ∧
+    Spec.countTrue (takeSelected m need).1 ≤ need ∧
+    (Spec.countTrue (takeSelected m need).1 = need ∨ (takeSelected m need).2 = []) := by
+  induction m generalizing need with
+  | nil => simp [takeSelected, Spec.countTrue]
+  | cons x m ih =>
+    unfold takeSelected
+    split
+    · rename_i h; subst h; simp [Spec.countTrue]
+    · rename_i h
+      cases x
+      · obtain ⟨h1, h2, h3⟩ := ih need
+        simp [Spec.countTrue, h1, h2, h3]
+      · obtain ⟨h1, h2, h3⟩ := ih (need - 1)
+        simp only [if_true, Spec.countTrue, List.cons_append, h1, true_and]
+        refine ⟨by omega, ?_⟩
+        rcases h3 with h3 | h3
+        · left; omega
+        · right; exact h3
+
+theorem leadFalse (rem : List Bool) :
+    ∃ k rest, rem = List.replicate k false ++ rest ∧ (rem.takeWhile (fun x => !x)).length = k ∧
+      rem.drop k = rest ∧ (rest = [] ∨ ∃ r, rest = true :: r) := by
+  induction rem with
+  | nil => exact ⟨0, [], by simp⟩
+  | cons x m ih =>
+    cases x
+    · obtain ⟨k, rest, h1, h2, h3, h4⟩ := ih
+      refine ⟨k + 1, rest, by simp [List.replicate_succ, ← h1], by simp [h2], by simpa using h3, h4⟩
+    · exact ⟨0, true :: m, by simp, by simp, by simp, Or.inr ⟨m, rfl⟩⟩
+
+theorem filterRows_range' (p : Nat) (chunk : List Bool) :
+    filterRows (List.range' p chunk.length) chunk = trueIdx p chunk := by
+  induction chunk generalizing p with
+  | nil => simp [filterRows, trueIdx]
+  | cons x m ih =>
+    cases x <;> simp [List.range'_succ, filterRows, trueIdx, ih]
+
+/-- a mask the `ReadPlan` hands to the cursor: trailing skips removed -/
+def Trimmed (rem : List Bool) : Prop := rem.getLast? ≠ some false
+
+theorem trimmed_suffix (a rest : List Bool) (h : Trimmed (a ++ rest)) : Trimmed rest := by
+  unfold Trimmed at *
+  cases rest with
+  | nil => simp
+  | cons x r =>
+    rw [List.getLast?_append] at h
+    cases hl : (x :: r).getLast? with
+    | none => simp at hl
+    | some v => rw [hl] at h; simpa using h
+
+/-- one `read_mask_batch` call (no loaded ranges) -/
+theorem maskLoop_ok (b total : Nat) (hb : 0 < b) (rem : List Bool) (pos : Nat)
+    (hfit : pos + rem.length ≤ total) (htrim : Trimmed rem) :
+    ∃ st, maskLoop b total (rem.length + 1) rem pos 0 [] [] = some st ∧
+      st.rows ++ trueIdx st.pos st.rem = trueIdx pos rem ∧
+      st.pos + st.rem.length ≤ total ∧ Trimmed st.rem ∧ st.rows.length ≤ b ∧
+      (rem ≠ [] → 0 < st.rows.length) := by
+  cases hrem : rem with
+  | nil =>
+    refine ⟨⟨[], [], pos⟩, ?_, by simp [trueIdx], by simpa [hrem] using hfit, by simp [Trimmed], by simp, by simp⟩
+    simp [maskLoop, filterRows]
+  | cons x0 m0 =>
+    rw [← hrem]
+    obtain ⟨k, rest, h1, h2, h3, h4⟩ := leadFalse rem
+    have hrest : ∃ r, rest = true :: r := by
+      rcases h4 with h4 | h4
+      · exfalso
+        subst h4
+        simp at h1
+        have hk : 0 < k := by
+          cases k with
+          | zero => simp [h1] at hrem
+          | succ k => omega
+        unfold Trimmed at htrim
+        apply htrim
+        rw [h1]
+        cases k with
+        | zero => omega
+        | succ k => simp [List.replicate_succ']
+      · exact h4
+    obtain ⟨r, hr⟩ := hrest
+    obtain ⟨t1, t2, t3⟩ := takeSelected_spec rest b
+    have hlen : rem.length = k + ((takeSelected rest b).1.length + (takeSelected rest b).2.length) := by
+      have := congrArg List.length t1
+      rw [h1]; simp at this ⊢; omega
+    have hchunk : (takeSelected rest b).1 ≠ [] := by
+      rw [hr]; unfold takeSelected; simp [show b ≠ 0 by omega]
+    have hclen : 0 < (takeSelected rest b).1.length := List.length_pos_iff.mpr hchunk
+    have hfl : rem.length + 1 = (rem.length - 1) + 1 + 1 := by omega
+    rw [hfl]
+    unfold maskLoop
+    have hne : rem.isEmpty = false := by rw [hrem]; rfl
+    simp only [show ¬ (0 ≥ b) by omega, hne, Bool.false_eq_true, or_self, if_false, nextMaskChunk,
+      h2, h3, Nat.sub_zero]
+    have hs : min k (total - pos) = k := by omega
+    have hrd : min (takeSelected rest b).1.length (total - (pos + k)) = (takeSelected rest b).1.length := by
+      omega
+    simp only [hs, ne_eq, not_true_eq_false, if_false, hrd, List.nil_append, Nat.zero_add]
+    have hz : ¬ ((takeSelected rest b).1.length = 0) := by omega
+    simp only [hz, or_false, if_false]
+    unfold maskLoop
+    have hstop : countTrue (takeSelected rest b).1 ≥ b ∨ (takeSelected rest b).2.isEmpty = true := by
+      rw [countTrue_eq]
+      rcases t3 with t3 | t3
+      · left; omega
+      · right; simp [t3]
+    simp only [hstop, if_true]
+    refine ⟨_, rfl, ?_, ?_, ?_, ?_, ?_⟩
+    · simp only [filterRows_range']
+      rw [h1, trueIdx_rep_false_append]
+      conv => rhs; rw [← t1]
+      rw [trueIdx_append]
+    · simp; omega
+    · have : rem = (List.replicate k false ++ (takeSelected rest b).1) ++ (takeSelected rest b).2 := by
+        rw [List.append_assoc, t1, h1]
+      rw [this] at htrim
+      exact trimmed_suffix _ _ htrim
+    · simp only [filterRows_range', trueIdx_length]; exact t2
+    · intro _
+      simp only [filterRows_range', trueIdx_length]
+      rw [hr]; unfold takeSelected
+      simp [show b ≠ 0 by omega, Spec.countTrue]
+
+/-- draining the reader with a mask cursor -/
+theorem readAll_mask (b total : Nat) (hb : 0 < b) (fuel : Nat) (rem : List Bool) (pos : Nat)
+    (hfit : pos + rem.length ≤ total) (htrim : Trimmed rem)
+    (hfuel : (trueIdx pos rem).length < fuel) :
+    ∃ bs, readAll b total fuel (.mask rem) pos = some bs ∧
+      bs.flatten = trueIdx pos rem ∧ ∀ x ∈ bs, 0 < x.length ∧ x.length ≤ b := by
+  induction fuel generalizing rem pos with
+  | zero => omega
+  | succ fuel ih =>
+    obtain ⟨st, h1, h2, h3, h4, h5, h6⟩ := maskLoop_ok b total hb rem pos hfit htrim
+    unfold readAll
+    simp only [show b ≠ 0 by omega, if_false, h1]
+    by_cases he : st.rows.isEmpty
+    · simp only [he, if_true]
+      have hX : st.rows = [] := by simpa using he
+      have hrem : rem = [] := by
+        by_cases hr : rem = []
+        · exact hr
+        · have := h6 hr; rw [hX] at this; simp at this
+      refine ⟨[], rfl, ?_, by simp⟩
+      rw [hrem]; simp [trueIdx]
+    · simp only [he, Bool.false_eq_true, if_false]
+      have hx : 0 < st.rows.length := List.length_pos_iff.mpr (by simpa using he)
+      have hlen : (trueIdx st.pos st.rem).length < fuel := by
+        have := congrArg List.length h2
+        simp at this
+        omega
+      obtain ⟨bs, hb1, hb2, hb3⟩ := ih st.rem st.pos h3 h4 hlen
+      refine ⟨st.rows :: bs, by simp [hb1], by simp [hb2, h2], ?_⟩
+      intro x hxm
+      simp at hxm
+      rcases hxm with rfl | hxm
+      · exact ⟨hx, h5⟩
+      · exact hb3 x hxm
+
+theorem trimMask_trimmed (m : List Bool) : Trimmed (trimMask m) := by
+  induction m with
+  | nil => simp [trimMask, Trimmed]
+  | cons x m ih =>
+    unfold trimMask
+    split
+    · cases x <;> simp [Trimmed]
+    · rename_i t h0
+      unfold Trimmed at *
+      cases ht : trimMask m with
+      | nil => simp [ht] at h0
+      | cons y r => rw [ht] at ih; rw [List.getLast?_cons_cons]; exact ih
+
+theorem trimMask_length (m : List Bool) : (trimMask m).length ≤ m.length := by
+  obtain ⟨k, hk⟩ := trimMask_spec m
+  have := congrArg List.length hk
+  simp at this; omega
 end ArrowModel.C06
